@@ -76,11 +76,25 @@ func TestVerifC20Cache(t *testing.T) {
 // instance has exited but is still cached (restart, in-place resize with a restart policy), and a name whose previous
 // instance is still running. What the plugin reconstructs must come from the new container's own cgroup parameters.
 func c20ThroughCache(t *testing.T, w *mc.Worker) {
-	cch, err := NewCache(Options{CacheDir: t.TempDir()})
+	dir := t.TempDir()
+	c20ThroughCacheOn(t, w, dir, false)
+	// fourth history: the pod predates a plugin restart (it is loaded from the state directory), the container is new
+	c20ThroughCacheOn(t, w, dir, true)
+}
+
+func c20ThroughCacheOn(t *testing.T, w *mc.Worker, dir string, restored bool) {
+	cch, err := NewCache(Options{CacheDir: dir})
 	if err != nil {
 		t.Fatalf("%v", err)
 	}
-	cch.InsertPod(&nri.PodSandbox{Id: "p", Name: "pod", Uid: "u", Namespace: "ns", Linux: &nri.LinuxPodSandbox{CgroupParent: "/kubepods/burstable/podu"}}, nil)
+	if restored {
+		if _, ok := cch.LookupPod("p"); !ok {
+			t.Fatalf("pod not restored")
+		}
+	}
+	if !restored {
+		cch.InsertPod(&nri.PodSandbox{Id: "p", Name: "pod", Uid: "u", Namespace: "ns", Linux: &nri.LinuxPodSandbox{CgroupParent: "/kubepods/burstable/podu"}}, nil)
+	}
 	encode := func(req, lim int64) *nri.LinuxResources {
 		r := &nri.LinuxResources{Cpu: &nri.LinuxCPU{Shares: nri.UInt64(kubernetes.MilliCPUToShares(req))}, Memory: &nri.LinuxMemory{Limit: nri.Int64(1 << 30)}}
 		if lim > 0 {
@@ -101,10 +115,17 @@ func c20ThroughCache(t *testing.T, w *mc.Worker) {
 		if !w.Mine(fi) {
 			continue
 		}
-		for _, hist := range []string{"fresh", "after-exited-instance", "after-running-instance"} {
+		hists := []string{"fresh", "after-exited-instance", "after-running-instance"}
+		if restored {
+			if fi%8 != 0 {
+				continue
+			}
+			hists = []string{"pod-restored-after-restart"}
+		}
+		for _, hist := range hists {
 			n++
 			var prevID string
-			if hist != "fresh" {
+			if hist != "fresh" && hist != "pod-restored-after-restart" {
 				prevID = fmt.Sprintf("prev%d", n)
 				prevReq := req/2 + 100
 				pc, err := cch.InsertContainer(&nri.Container{Id: prevID, PodSandboxId: "p", Name: "c", State: nri.ContainerState_CONTAINER_RUNNING,
@@ -145,4 +166,5 @@ func c20ThroughCache(t *testing.T, w *mc.Worker) {
 			}
 		}
 	}
+	cch.Save()
 }
